@@ -42,7 +42,8 @@ uint64_t MHD_monotonic_msec_counter (void) { return vclock_ms; }
 static struct {
   char mode[16]; size_t mem, incr; int lvl; unsigned limit, perip, timeout;
   int upgrade, suspend, have_lvl; unsigned nonce_tbl; int no_urilog;
-} cfg = { "select", 0, 0, 0, 0, 0, 0, 0, 0, 0, 0, 0 };
+  int have_apc; unsigned apc_deny;   /* accept policy callback registered: rejects this client address */
+} cfg = { "select", 0, 0, 0, 0, 0, 0, 0, 0, 0, 0, 0, 0, 0 };
 
 static struct MHD_Daemon *d;
 
@@ -306,9 +307,22 @@ static void notify_conn (void *cls, struct MHD_Connection *mc, void **socket_con
   else
   {
     int c = (int) (intptr_t) *socket_context - 1;
+    if (NULL == *socket_context)
+      out ("protocol-error c=-1 r=-1 close-notification-for-a-connection-that-was-never-announced");
+    else if (c >= 0 && c < MAXC && 1 != conns[c].started)
+      out ("protocol-error c=%d r=-1 close-notification-%s", c, 2 == conns[c].started ? "delivered-twice" : "without-start");
     out ("conn-close c=%d", c);
     if (c >= 0) { conns[c].mc = NULL; conns[c].started = 2; }
   }
+}
+
+static enum MHD_Result apc_cb (void *cls, const struct sockaddr *addr, socklen_t addrlen)
+{
+  unsigned a = 0;
+  (void) cls; (void) addrlen;
+  if (addr && AF_INET == addr->sa_family) a = (unsigned) (ntohl (((const struct sockaddr_in *) addr)->sin_addr.s_addr) - 0x0a000000u);
+  out ("apc addr=%u -> %d", a, (int) (a != cfg.apc_deny));
+  return (a != cfg.apc_deny) ? MHD_YES : MHD_NO;
 }
 
 static void *uri_log (void *cls, const char *uri, struct MHD_Connection *mc)
@@ -528,7 +542,7 @@ static void start_daemon (void)
   ops[n].option = MHD_OPTION_NOTIFY_CONNECTION; ops[n].value = (intptr_t) &notify_conn; ops[n++].ptr_value = NULL;
   if (!cfg.no_urilog) { ops[n].option = MHD_OPTION_URI_LOG_CALLBACK; ops[n].value = (intptr_t) &uri_log; ops[n++].ptr_value = NULL; }
   ops[n].option = MHD_OPTION_END; ops[n].value = 0; ops[n++].ptr_value = NULL;
-  d = MHD_start_daemon (flags, 0, NULL, NULL, &handler, NULL, MHD_OPTION_ARRAY, ops, MHD_OPTION_END);
+  d = MHD_start_daemon (flags, 0, cfg.have_apc ? &apc_cb : NULL, NULL, &handler, NULL, MHD_OPTION_ARRAY, ops, MHD_OPTION_END);
   out (d ? "started" : "start-failed");
 }
 
@@ -575,6 +589,7 @@ int main (void)
         else if (kv (l.w[i], "perip", &v)) cfg.perip = (unsigned) atoi (v);
         else if (kv (l.w[i], "timeout", &v)) cfg.timeout = (unsigned) atoi (v);
         else if (kv (l.w[i], "upgrade", &v)) cfg.upgrade = atoi (v);
+        else if (kv (l.w[i], "apc", &v)) { cfg.have_apc = 1; cfg.apc_deny = (unsigned) atoi (v); }
         else if (kv (l.w[i], "suspend", &v)) cfg.suspend = atoi (v);
         else if (kv (l.w[i], "nonce_tbl", &v)) cfg.nonce_tbl = (unsigned) atoi (v);
         else if (kv (l.w[i], "urilog", &v)) cfg.no_urilog = !atoi (v);
